@@ -19,7 +19,9 @@ VALUES = [("summary", "a"), ("summary", "b"), ("SUMMARY", "a"), ("description", 
           ("dtstart", datetime(2020, 1, 2, 10, 0, 0)), ("dtstart", date(2020, 1, 2)), ("duration", timedelta(hours=1)),
           ("priority", 5), ("priority", 6), ("x-custom", "v"), ("X-Custom", "w"), ("categories", ["a", "b"]),
           ("attendee", "mailto:a@x"), ("attendee", "mailto:b@x"), ("comment", "c1"), ("comment", "c2"),
-          ("location", "L"), ("url", "http://x"), ("sequence", 1)]
+          ("location", "L"), ("url", "http://x"), ("sequence", 1),
+          # numbered extension names: equal up to zero padding, and of different digit counts
+          ("x-item-1", "a"), ("x-item-01", "b"), ("x-rev-7", "c"), ("x-rev-007", "d"), ("x-a-2", "e"), ("x-a-10", "f")]
 
 
 def twin_values():
